@@ -132,6 +132,9 @@ class sym_int(metaclass=_IntMeta):
             return x
         if isinstance(x, SymBool):
             return x._int()
+        from .symfloat import SymFloat
+        if isinstance(x, SymFloat):
+            return x.to_int("trunc")
         return _b.int(x)
 
     from_bytes = staticmethod(lambda *a, **k: _from_bytes(*a, **k))
@@ -242,8 +245,9 @@ def sym_isinstance(obj, cls):
         return isinstance(obj, (_b.int, SymInt, SymBool))
     if cls is _b.bool or cls is sym_bool:
         return isinstance(obj, (_b.bool, SymBool))
-    if cls is _b.float:
-        return isinstance(obj, _b.float)
+    if cls is _b.float or getattr(cls, "__name__", "") == "_sym_float":
+        from .symfloat import SymFloat
+        return isinstance(obj, (_b.float, SymFloat))
     for kind, real, symt in (("bytes", _b.bytes, sym_bytes), ("bytearray", _b.bytearray, sym_bytearray),
                              ("list", _b.list, sym_list), ("tuple", _b.tuple, sym_tuple)):
         if cls is real or cls is symt:
@@ -345,6 +349,16 @@ def sym_type(x, *a):
     return _b.type(x)
 
 
+def _sym_float(x=0.0):
+    from .symfloat import sym_float
+    return sym_float(x)
+
+
+def _sym_round(x, *a):
+    from .symfloat import sym_round
+    return sym_round(x, *a)
+
+
 REPLACEMENTS = {
     "range": SymRange,
     "len": sym_len,
@@ -363,6 +377,8 @@ REPLACEMENTS = {
     "divmod": sym_divmod,
     "pow": sym_pow,
     "type": sym_type,
+    "float": _sym_float,
+    "round": _sym_round,
 }
 
 
